@@ -6,6 +6,7 @@ import (
 	"fmt"
 	"net/http"
 	"net/url"
+	"sort"
 
 	"github.com/go-fed/activity/streams"
 	"github.com/go-fed/activity/streams/vocab"
@@ -239,6 +240,12 @@ func (a *sideEffectActor) InboxForwarding(c context.Context, inboxIRI *url.URL, 
 	// Finally, load our IRIs to determine if they are a Collection or
 	// OrderedCollection.
 	//
+	// The collections stay locked until this function returns. Lock each
+	// one only once, and always in the same order, so that neither an IRI
+	// named twice nor two activities naming the same collections in
+	// different orders can block forever.
+	myIRIs = dedupeIRIs(myIRIs, nil)
+	sort.Slice(myIRIs, func(i, j int) bool { return myIRIs[i].String() < myIRIs[j].String() })
 	// Load the unfiltered IRIs.
 	var colIRIs []*url.URL
 	col := make(map[string]itemser)
